@@ -14,6 +14,7 @@ RULE = ('(a) every pattern of (buy|sell) x (smaller|equal|larger than the curren
 RULE += " Six portfolio-construction driver cases per broker shard: after each portfolio construction (nothing submitted yet) broker.get_portfolio_as_dict must equal the portfolio's own report and contain no zero-quantity entry."
 RULE += ' Kept handles and emptied/kept report copies as in C01 (also in the portfolio-level ladders).'
 RULE += ' A refused request must leave the holdings report unchanged. Composite: a market-neutral book (long q / short q quoted alike, both legs re-marked at the same mid: market value exactly 0.0), then the quotes part and the clock moves on.'
+RULE += ' Directed scripts: a held asset, its value asked for, re-quoted, then an update that re-marks it and aborts on an unpriced order - the valuation is read right after the abort and again after the next update.'
 ASSUMPTIONS = [
     'market value is one float multiplication: compared at 1e-12 relative; sums at 1e-9',
     'icontract class invariants (no flat position kept; equity == cash + market value) are evaluated on every '
